@@ -3,6 +3,7 @@ C13 — Variation operators keep solutions well-formed and conserve parental gen
 Property theorems only; helper lemmas are in `Proofs/C13.lean`.
 -/
 import MahfModel.Proofs.C13
+import MahfModel.Proofs.C13Cycle
 namespace MahfModel.Props.C13
 open MahfModel.Variation
 
@@ -58,6 +59,16 @@ theorem translocate_agree_everywhere (l : List α) (s e i : Nat) :
   cases h : translocValid l.length s e i with
   | true => rw [translocateSlice_eq l s e i h, translocateSlice2_eq l s e i h]
   | false => rw [(translocate_invalid l s e i h).1, (translocate_invalid l s e i h).2]
+
+/-- The executable predicate evaluated in step O (`valid input ⇒ both outputs present, equal, a
+permutation, and equal to the closed form`) holds on the model for EVERY input. -/
+theorem circular_swap_holds (l : List Nat) (idx : List Nat) :
+    cswapHolds l idx (circularSwap l idx) (circularSwap2 l idx) = true := cswapHolds_model l idx
+
+/-- Likewise for the translocation helpers. -/
+theorem translocate_holds (l : List Nat) (s e i : Nat) :
+    translocHolds l s e i (translocateSlice l s e i) (translocateSlice2 l s e i) = true :=
+  translocHolds_model l s e i
 
 /-- Multi-point crossover on parents of equal length with cut points in `0..=len`: no panic, the
 children have the parents' length, and position `k` of child 1 holds the gene of parent 2 exactly
@@ -123,6 +134,22 @@ theorem uniform_genes_conserved (p1 p2 : List α) (mask : List Bool) (hl : p1.le
   cases hmk : mask[k]'(hm ▸ hlt)
   · left; simpa [hmk] using this
   · right; simpa [hmk] using this
+
+/-- Cycle crossover on two permutations of the same elements: no panic (all three contracts hold,
+the `unwrap` succeeds, the loop terminates within its fuel), the children have the parents' length
+and every position holds the two parental genes of that position (both conserved). -/
+theorem cycle_crossover_positionwise [DecidableEq α] (p1 p2 : List α) (h1 : p1.Nodup) (hp : p1.Perm p2) :
+    ∃ c1 c2, cycleCrossover p1 p2 = some (c1, c2) ∧ c1.length = p1.length ∧ c2.length = p1.length ∧
+      ∀ k : Nat, k < p1.length →
+        (c1[k]? = p1[k]? ∧ c2[k]? = p2[k]?) ∨ (c1[k]? = p2[k]? ∧ c2[k]? = p1[k]?) := by
+  obtain ⟨c1, c2, h, l1, l2, hk, _, _⟩ := cycleCrossover_spec p1 p2 h1 hp
+  exact ⟨c1, c2, h, l1, l2, hk⟩
+
+/-- The children of two permutations are permutations of the same elements. -/
+theorem cycle_crossover_perm [DecidableEq α] (p1 p2 : List α) (h1 : p1.Nodup) (hp : p1.Perm p2) :
+    ∃ c1 c2, cycleCrossover p1 p2 = some (c1, c2) ∧ c1.Perm p1 ∧ c2.Perm p1 := by
+  obtain ⟨c1, c2, h, _, _, _, q1, q2⟩ := cycleCrossover_spec p1 p2 h1 hp
+  exact ⟨c1, c2, h, q1, q2⟩
 
 section Arith
 variable {F : Type} [Field F] [LinearOrder F] [IsStrictOrderedRing F]
@@ -281,5 +308,9 @@ example : translocateSlice [1, 2, 3, 4, 5, 6, 7, 8, 9] 3 6 1 = some [1, 4, 5, 6,
 example : translocateSlice [1, 2, 3, 4, 5, 6, 7, 8, 9] 6 9 6 = some [1, 2, 3, 4, 5, 6, 7, 8, 9] := by decide
 example : multiPointCrossover [0, 0, 0, 0, 0] [1, 1, 1, 1, 1] [4, 2] = some ([0, 0, 1, 1, 0], [1, 1, 0, 0, 1]) := by decide
 example : uniformCrossover [0, 0, 0] [1, 1, 1] [true, false, true] = some ([1, 0, 1], [0, 1, 0]) := by decide
+example : cycleCrossover [8, 4, 7, 3, 6, 2, 5, 1, 9, 0] [0, 1, 2, 3, 4, 5, 6, 7, 8, 9] =
+    some ([8, 1, 2, 3, 4, 5, 6, 7, 9, 0], [0, 4, 7, 3, 6, 2, 5, 1, 8, 9]) := by decide
+example : ([8, 4, 7, 3, 6, 2, 5, 1, 9, 0] : List Nat).Nodup ∧
+    ([8, 4, 7, 3, 6, 2, 5, 1, 9, 0] : List Nat).Perm [0, 1, 2, 3, 4, 5, 6, 7, 8, 9] := by decide
 
 end MahfModel.Props.C13
